@@ -264,6 +264,36 @@ pub fn market_submit<const N: usize, const L: usize>(m: usize, cfg: GenCfg, whic
     core::mem::forget(t1);
 }
 
+/// `MarketEnv::enable_trading` / `disable_trading`: every asset's flag is set, nothing else changes
+pub fn market_env_toggle<const N: usize, const L: usize>(m: usize) {
+    let cfg = LOG1;
+    let p0: Plain<N> = gen_plain::<N>(m, cfg);
+    let mut p1: Plain<N> = gen_plain::<N>(m, cfg);
+    p1.t = p0.t;
+    p1.trading = p0.trading;
+    let (b0, old0) = build_with_log::<N, L>(&p0, cfg.ntrades);
+    let (b1, old1) = build_with_log::<N, L>(&p1, cfg.ntrades);
+    let (t0, t1) = (build::<N, L>(&p0, 0), build::<N, L>(&p1, 0));
+    let mut env: MarketEnv<2, L> = MarketEnv::verif_from_market(any_u64(), Market::verif_from_books([b0, b1]));
+    let on = any_bool();
+    if on {
+        env.enable_trading();
+    } else {
+        env.disable_trading();
+    }
+    let (mut e0, mut e1) = (p0, p1);
+    e0.trading = on;
+    e1.trading = on;
+    vcheck!(env.market.verif_book(0).verif_trading() == on && env.market.verif_book(1).verif_trading() == on, "TOGGLE.sets_every_assets_flag");
+    vcheck!(snapshot_equal::<N, L>(env.market.verif_book(0), &e0, cfg.ntrades, &old0, false) && sides_same(env.market.verif_book(0), &t0), "TOGGLE.changes_nothing_else_in_the_book");
+    vcheck!(snapshot_equal::<N, L>(env.market.verif_book(1), &e1, cfg.ntrades, &old1, false) && sides_same(env.market.verif_book(1), &t1), "TOGGLE.changes_nothing_else_in_the_book");
+    vcheck!(env.verif_queue_len() == 0, "TOGGLE.queue_and_histories_untouched");
+    vcover!(on && !p0.trading, "cover.re_enabled");
+    core::mem::forget(env);
+    core::mem::forget(t0);
+    core::mem::forget(t1);
+}
+
 pub static mut MCANCELLED: [MarketOrderId; 8] = [(0, 0); 8];
 pub static mut NMCANCELLED: usize = 0;
 pub fn mcancelled() -> ([MarketOrderId; 8], usize) {
@@ -304,6 +334,8 @@ impl<const ASSETS: usize, const LEVELS: usize> MarketEnv<ASSETS, LEVELS> {
 }
 
 vharnesses! {
+    #[cfg_attr(kani, kani::unwind(6))]
+    fn market_env_toggle_m1() { market_env_toggle::<2, 2>(1) }
     #[cfg_attr(kani, kani::unwind(6))]
     #[cfg_attr(kani, kani::stub(bourse_book::Market::process_event, bourse_book::Market::verif_log_event))]
     fn market_env_submit_place_asset0() { market_submit::<2, 2>(1, LOG1, 0, 0) }
